@@ -232,7 +232,7 @@ def flip_tail(h):
 
 
 def sig_of(s):
-    return features(s["steps"])
+    return sig_wired(s)
 
 
 def nontrivial(s, rows):
@@ -240,6 +240,84 @@ def nontrivial(s, rows):
     # committee in which a validator is a selected aggregator
     f = features(s["steps"])
     return f["future"] or f["aggregating_attest"]
+
+
+def sig_wired(s):
+    f = dict(features(s["steps"]))
+    if s.get("wired"):
+        f.update(wired_features(s))
+        f.update({"wired_" + k: v for k, v in s["wired"].items()})
+    return f
+
+
+# ---- the wired family: the real signer / submitter / aggregation behind the same services ----------------------
+# values of the constant Mix of SubscriberSigner.tla (the sibling implementations of the signing path: wallet
+# accounts signed one by one, Dirk accounts signed by one multi-sign request, either of them distributed, and
+# batches that signRootsByAccountType splits in two)
+MIXES = ["local", "multi", "dist", "mixed", "localmixed"]
+# accounts per scenario validator: a scenario validator stands for a block (1: as in the fake-based family;
+# 16 / 17 / 24: a slot batch at and above the size from which a signer might spread local signing over the cores;
+# up to 64 accounts in one batch)
+WIDTHS = [1, 3, 16, 17, 24, 64]
+ORDERS = ["reverse", "firstlast", "random", "inorder"]     # latency scripts (completion order the environment wants)
+SUBMITTERS = ["immediate", "multinode"]
+
+
+def wired_ok(h):
+    """Histories the wired driver can run: no call parked inside the scripted signer; a re-org that keeps a block's
+    committee but changes its length is a resize of the pair (a block moves validator by validator)."""
+    for st in h:
+        if st["ev"] in ("Fetch", "Finish"):
+            return False
+        if st["ev"] == "Duty" and st.get("op") == "move" and st.get("ocommittee") == st.get("committee"):
+            return False
+        if st["ev"] == "Duty" and st.get("v", 1) > 8:
+            return False
+    return True
+
+
+def wired_features(s):
+    """What a wired scenario exercises (for the log and the non-trivial count; never for the verdict)."""
+    w, steps = s["wired"], s["steps"]
+    per_slot, best, calls = {}, 0, 0
+    for st in steps:
+        if st["ev"] == "Duty" and st.get("op", "add") == "add":
+            per_slot[st["slot"]] = per_slot.get(st["slot"], 0) + 1
+        elif st["ev"] == "Duty" and st.get("op") == "drop":
+            per_slot[st["slot"]] = per_slot.get(st["slot"], 0) - 1
+        elif st["ev"] in ("Subscribe", "Resub") and not st.get("fail"):
+            calls += 1
+            best = max([best] + [n * w["width"] for n in per_slot.values()])
+    return {"batch": best, "calls": calls,
+            "big_local_batch_out_of_order": best >= 16 and w["mix"] in ("local", "localmixed") and w["order"] != "inorder" and calls > 0,
+            "split_batch": w["mix"] in ("mixed", "localmixed") and best >= 2 and calls > 0}
+
+
+def wired_scenarios(tier, pool, first_id):
+    quick = tier == "quick"
+    rnd = random.Random(vf.seed() + 77)
+    cand = [h for h in pool if wired_ok(h) and any(st["ev"] in ("Subscribe", "Resub") and not st.get("fail") for st in h)]
+    rnd.shuffle(cand)
+    # histories with an in-slot attestation of an aggregating committee first (the aggregation job then runs the real
+    # Aggregate with the stored selection proof), then the rest
+    cand.sort(key=lambda h: not features(h)["aggregating_attest"])
+    n = 72 if quick else 900
+    res = []
+    for i, h in enumerate(cand[:n]):
+        mix = MIXES[i % len(MIXES)]
+        # the local kinds get the big batches and the out-of-order scripts most of the time
+        width = WIDTHS[(i // len(MIXES)) % len(WIDTHS)] if mix in ("local", "localmixed") or i % 2 else rnd.choice(WIDTHS[:3])
+        wiring = {"mix": mix, "width": width, "order": ORDERS[(i // 3) % len(ORDERS)], "submitter": SUBMITTERS[(i // 7) % 2]}
+        res.append({"sc": first_id + i, "spe": h[0].get("spe", SPE), "wide": i % 2 == 1, "wired": wiring, "steps": h})
+    cnt = {}
+    for s in res:
+        f = wired_features(s)
+        for k in ("big_local_batch_out_of_order", "split_batch"):
+            cnt[k] = cnt.get(k, 0) + (1 if f[k] else 0)
+        cnt["batch>=16"] = cnt.get("batch>=16", 0) + (1 if f["batch"] >= 16 else 0)
+        cnt["batch>=64"] = cnt.get("batch>=64", 0) + (1 if f["batch"] >= 64 else 0)
+    vf.log("wired scenarios (of %d): %s" % (len(res), ", ".join("%s=%d" % kv for kv in sorted(cnt.items()))))
+    return res
 
 
 def scenarios(tier):
@@ -299,7 +377,9 @@ def scenarios(tier):
         for k, on in features(h).items():
             cnt[k] = cnt.get(k, 0) + (1 if on else 0)
     vf.log("scenario classes (of %d): %s" % (len(picked), ", ".join("%s=%d" % kv for kv in sorted(cnt.items()))))
-    return [{"sc": i + 1, "spe": h[0].get("spe", SPE), "wide": i % 2 == 1, "steps": h} for i, h in enumerate(picked)]
+    fake = [{"sc": i + 1, "spe": h[0].get("spe", SPE), "wide": i % 2 == 1, "steps": h} for i, h in enumerate(picked)]
+    # the wired family next to them: histories of the same generators on ONE wired instance each
+    return fake + wired_scenarios(tier, dense + main + move, len(fake) + 1)
 
 
 # control designs of the attestation aggregator with state kept on the instance (spec/SubscriberMemo.tla)
@@ -311,13 +391,29 @@ MUST_VIOLATE = [("MC_SubscriberMemo_memoflag.cfg", "AggregatorRuleExact"),      
                 ("MC_SubscriberMemo_sharedsizes.cfg", "AggregatorRuleExact")]   # rejected once calls overlap
 
 
-def _expect_violation(cfg, inv, timeout=600):
+# the signer behind the aggregator as a component of the specification (spec/SubscriberSigner.tla): the batch contract
+# for every kind of account (values of Mix), local signing sequential and parallel, every completion order
+SIGNER_PASS_QUICK = ["MC_SubscriberSigner_local_par.cfg", "MC_SubscriberSigner_multi.cfg",
+                     "MC_SubscriberSigner_mixed.cfg", "MC_SubscriberSigner_localmixed.cfg",
+                     # the deviation below the batch size from which signing is parallel: every small duty set passes
+                     "MC_SubscriberSigner_completion_small.cfg"]
+SIGNER_PASS_MORE = ["MC_SubscriberSigner_local_seq.cfg", "MC_SubscriberSigner_dist.cfg",
+                    "MC_SubscriberSigner_completion_multi.cfg",     # Dirk accounts never reach the parallel branch
+                    "MC_SubscriberSigner_concat_onekind.cfg",       # a batch of one kind is not split
+                    "MC_SubscriberSigner_local_par_resub.cfg"]      # ... with a refresh and its re-subscription
+# deviations that TLC must reject: signatures gathered in completion order (the seeded change); the two groups of a
+# split batch concatenated instead of being put back through the index maps
+SIGNER_VIOLATE = [("MC_SubscriberSigner_completion.cfg", "AggregatorRuleExact"),
+                  ("MC_SubscriberSigner_concat.cfg", "ProofsOwn")]
+
+
+def _expect_violation(cfg, inv, timeout=600, module="SubscriberMemo"):
     """A control design that the invariants must reject: otherwise the model cannot see the class (broken run,
     never a verdict)."""
-    r = vf.tlc(PID, "mc-" + cfg.replace(".cfg", ""), "SubscriberMemo", cfg, workers=4, timeout=timeout, heap="4g")
+    r = vf.tlc(PID, "mc-" + cfg.replace(".cfg", ""), module, cfg, workers=4, timeout=timeout, heap="4g")
     if r["timed_out"] or r["kind"] != "invariant" or r["violated"] != inv:
         raise vf.Broken("%s should violate %s (vacuous model?): %s %s\n%s" % (cfg, inv, r["kind"], r["violated"], r["out"][-1500:]))
-    vf.log("TLC SubscriberMemo/%s: %s violated as it must be (%d distinct states, %.1fs)" % (cfg, inv, r["distinct"], r["wall_s"]))
+    vf.log("TLC %s/%s: %s violated as it must be (%d distinct states, %.1fs)" % (module, cfg, inv, r["distinct"], r["wall_s"]))
     return r
 
 
@@ -330,14 +426,17 @@ def model(tier):
             ("mc", "Subscriber", "MC_Subscriber_overlap.cfg", {})]
     jobs += [("mc", "SubscriberMemo", c, {}) for c in MUST_PASS]
     jobs += [("bad", c, inv, {}) for c, inv in MUST_VIOLATE]
+    jobs += [("mc", "SubscriberSigner", c, {}) for c in SIGNER_PASS_QUICK]
+    jobs += [("bad", c, inv, {"module": "SubscriberSigner"}) for c, inv in SIGNER_VIOLATE]
     if tier == "thorough":
+        jobs += [("mc", "SubscriberSigner", c, {"timeout": 1500}) for c in SIGNER_PASS_MORE]
         jobs += [("mc", "Subscriber", "MC_Subscriber_big.cfg", {"coverage": True, "timeout": 1800}),
                  ("mc", "Subscriber", "MC_Subscriber_reorg_big.cfg", {"timeout": 1200}),
                  ("mc", "Subscriber", "MC_Subscriber_overlap_big.cfg", {"timeout": 1500})]
 
     def one(j):
         if j[0] == "bad":
-            _expect_violation(j[1], j[2])
+            _expect_violation(j[1], j[2], **j[3])
             return None
         return vf.tlc_exhaustive(PID, j[1], j[2], workers=4, **j[3])
 
